@@ -44,7 +44,7 @@ def parseIface? (s : String) : Option Iface := do
   | _ => none
 
 def parseCfg? : List String → Option Config
-  | [nC, bs, sc, sn, stack, dfr, dc, cp, mi, skip, db, halt, conv] => do
+  | [nC, bs, sc, sn, stack, dfr, dc, cp, mi, skip, db, halt, conv, _bolset] => do
     let halt ← parsePairs? halt
     let conv ← parseQuads? conv
     some { nCycles := ← parseNat? nC, burnSteps := ← parseNatList? bs, startCycle := ← parseNat? sc,
